@@ -344,6 +344,60 @@ func registerVerif() {
 		m.raceOn = true
 		return nil
 	}
+	// verifRaceScopeDeep(ptr, label): the object ptr points to and every heap object reachable
+	// from it (through pointers, slices, interfaces, closures' captured variables excluded)
+	// is watched by the race detector - so that state hanging off a shared object is covered
+	// whatever field holds it.
+	intrinsics["verifRaceScopeDeep"] = func(m *Machine, th *Thread, fn *ssa.Function, a []Value, site ssa.Instruction) Value {
+		iv := a[0].(*IfaceV)
+		p, ok := iv.V.(*Ptr)
+		if !ok || p.Obj == nil {
+			panic(m.unsupported("verifRaceScopeDeep needs a non-nil pointer"))
+		}
+		label := m.strArg(a[1])
+		seen := map[*Obj]bool{}
+		var walk func(v Value, depth int)
+		mark := func(o *Obj, depth int) {
+			if o == nil || seen[o] || len(seen) > 200 {
+				return
+			}
+			seen[o] = true
+			if o.Race == nil {
+				o.Race = &raceInfo{w: map[string]access{}, rd: map[string][]access{}}
+				if o.Label == "" {
+					o.Label = label + " (reachable)"
+				}
+			}
+			walk(o.V, depth+1)
+		}
+		walk = func(v Value, depth int) {
+			if depth > 8 {
+				return
+			}
+			switch x := v.(type) {
+			case *Ptr:
+				mark(x.Obj, depth)
+			case *StructV:
+				for _, f := range x.F {
+					walk(f, depth)
+				}
+			case *ArrayV:
+				for _, e := range x.E {
+					walk(e, depth)
+				}
+			case *SliceV:
+				mark(x.Arr, depth)
+			case *IfaceV:
+				if x.T != nil {
+					walk(x.V, depth)
+				}
+			}
+		}
+		mark(p.Obj, 0)
+		p.Obj.Label = label
+		m.raceOn = true
+		return nil
+	}
 	intrinsics["verifMapOrderAny"] = func(m *Machine, th *Thread, fn *ssa.Function, a []Value, site ssa.Instruction) Value {
 		return nil
 	}
